@@ -264,3 +264,336 @@ func vc_printJSONTime_requires(data []byte, toplevel bool, result *bytes.Buffer)
 func vc_printJSONTime_ensures_text(data []byte, toplevel bool, result *bytes.Buffer, err error) bool {
 	return err == nil && vspec.BufIs(result, vspec.Cat(vspec.BufOld(result), specJTimeText(data, toplevel)))
 }
+
+// ---- opaque DECIMAL: precision and scale bytes, then the decimal2bin value (same layout as a DECIMAL cell) ----
+
+func specJDecMeta(data []byte) uint16 { return uint16(data[0])<<8 + uint16(data[1]) }
+
+func specJDecOK(data []byte) bool {
+	return len(data) >= 2 && specCellOK(data, 2, TypeNewDecimal, specJDecMeta(data))
+}
+
+func specJDecText(data []byte, top bool) vspec.Text {
+	return vspec.Cat(specJCastOpen(top), vspec.Lit("CAST('"), specCellText(data, 2, TypeNewDecimal, specJDecMeta(data), false),
+		vspec.Lit("' AS DECIMAL("), vspec.Num(0, uint64(data[0])), vspec.Lit(","), vspec.Num(0, uint64(data[1])), vspec.Lit("))"), specJCastClose(top))
+}
+
+func vc_printJSONDecimal_requires(data []byte, toplevel bool, result *bytes.Buffer) bool {
+	return specJDecOK(data) && result != nil
+}
+func vc_printJSONDecimal_ensures_text(data []byte, toplevel bool, result *bytes.Buffer, err error) bool {
+	return err == nil && vspec.BufIs(result, vspec.Cat(vspec.BufOld(result), specJDecText(data, toplevel)))
+}
+
+// ---- opaque values: field type byte, variable-length size, payload ----
+
+func specJOpaquePayload(data []byte) []byte {
+	n := specVarLenBytes(data, 1)
+	return data[1+n : 1+n+specVarLen(data, 1)]
+}
+
+func specJOpaqueFramed(data []byte) bool {
+	if len(data) < 2 {
+		return false
+	}
+	n := specVarLenBytes(data, 1)
+	return n > 0 && 1+n+specVarLen(data, 1) <= len(data)
+}
+
+func specJOpaqueOK(data []byte) bool {
+	if !specJOpaqueFramed(data) {
+		return false
+	}
+	switch data[0] {
+	case TypeDate, TypeTime, TypeDateTime:
+		return len(specJOpaquePayload(data)) >= 8
+	case TypeNewDecimal:
+		return specJDecOK(specJOpaquePayload(data))
+	}
+	return false
+}
+
+func specJOpaqueText(data []byte, top bool) vspec.Text {
+	switch data[0] {
+	case TypeDate:
+		return specJDateText(specJOpaquePayload(data), top)
+	case TypeTime:
+		return specJTimeText(specJOpaquePayload(data), top)
+	case TypeDateTime:
+		return specJDateTimeText(specJOpaquePayload(data), top)
+	}
+	return specJDecText(specJOpaquePayload(data), top)
+}
+
+func vc_printJSONOpaque_requires(data []byte, toplevel bool, result *bytes.Buffer) bool {
+	return specJOpaqueOK(data) && result != nil
+}
+func vc_printJSONOpaque_ensures_text(data []byte, toplevel bool, result *bytes.Buffer, err error) bool {
+	return err == nil && vspec.BufIs(result, vspec.Cat(vspec.BufOld(result), specJOpaqueText(data, toplevel)))
+}
+
+// ---- values: the type byte decides ----
+
+func specJSONValueOK(typ byte, data []byte) bool {
+	switch typ {
+	case jsonTypeSmallObject:
+		return specJObjOK(data, false)
+	case jsonTypeLargeObject:
+		return specJObjOK(data, true)
+	case jsonTypeSmallArray:
+		return specJArrOK(data, false)
+	case jsonTypeLargeArray:
+		return specJArrOK(data, true)
+	case jsonTypeLiteral:
+		return len(data) >= 1 && data[0] <= 2
+	case jsonTypeInt16, jsonTypeUint16:
+		return len(data) >= 2
+	case jsonTypeInt32, jsonTypeUint32:
+		return len(data) >= 4
+	case jsonTypeInt64, jsonTypeUint64, jsonTypeDouble:
+		return len(data) >= 8
+	case jsonTypeString:
+		return specJStringOK(data)
+	case jsonTypeOpaque:
+		return specJOpaqueOK(data)
+	}
+	return false
+}
+
+func specJSONValueText(typ byte, data []byte, top bool) vspec.Text {
+	switch typ {
+	case jsonTypeSmallObject:
+		return specJObjText(data, false)
+	case jsonTypeLargeObject:
+		return specJObjText(data, true)
+	case jsonTypeSmallArray:
+		return specJArrText(data, false)
+	case jsonTypeLargeArray:
+		return specJArrText(data, true)
+	case jsonTypeLiteral:
+		return vspec.Cat(specJQ(top), specJLitText(data[0]), specJQ(top))
+	case jsonTypeInt16:
+		return vspec.Cat(specJQ(top), vspec.DecS(int64(int16(specLE16(data, 0)))), specJQ(top))
+	case jsonTypeUint16:
+		return vspec.Cat(specJQ(top), vspec.Num(0, uint64(specLE16(data, 0))), specJQ(top))
+	case jsonTypeInt32:
+		return vspec.Cat(specJQ(top), vspec.DecS(int64(int32(specLE32(data, 0)))), specJQ(top))
+	case jsonTypeUint32:
+		return vspec.Cat(specJQ(top), vspec.Num(0, uint64(specLE32(data, 0))), specJQ(top))
+	case jsonTypeInt64:
+		return vspec.Cat(specJQ(top), vspec.DecS(int64(specLE64(data, 0))), specJQ(top))
+	case jsonTypeUint64:
+		return vspec.Cat(specJQ(top), vspec.Num(0, specLE64(data, 0)), specJQ(top))
+	case jsonTypeDouble:
+		return vspec.Cat(specJQ(top), vspec.Float(specLE64(data, 0), 'E', -1, 64), specJQ(top))
+	case jsonTypeString:
+		return specJStringText(data, top)
+	}
+	return specJOpaqueText(data, top)
+}
+
+func vc_printJSONValue_requires(typ byte, data []byte, toplevel bool, result *bytes.Buffer) bool {
+	return specJSONValueOK(typ, data) && result != nil
+}
+func vc_printJSONValue_ensures_text(typ byte, data []byte, toplevel bool, result *bytes.Buffer, err error) bool {
+	return err == nil && vspec.BufIs(result, vspec.Cat(vspec.BufOld(result), specJSONValueText(typ, data, toplevel)))
+}
+
+// ---- value entries of a container: type byte, then the value itself when it fits in the entry (literals, 16-bit
+// integers, 32-bit integers in the large format), else the offset of the value inside the container ----
+
+func specJEntryOK(data []byte, pos int, large bool) bool {
+	if pos < 0 || pos >= len(data) || pos+1+specJW(large) > len(data) {
+		return false
+	}
+	typ := data[pos]
+	switch {
+	case typ == jsonTypeLiteral:
+		return data[pos+1] <= 2
+	case typ == jsonTypeInt16, typ == jsonTypeUint16:
+		return true
+	case (typ == jsonTypeInt32 || typ == jsonTypeUint32) && large:
+		return true
+	}
+	off := specJOff(data, pos+1, large)
+	return off <= len(data) && specJSONValueOK(typ, data[off:])
+}
+
+func specJEntryText(data []byte, pos int, large bool) vspec.Text {
+	typ := data[pos]
+	switch {
+	case typ == jsonTypeLiteral:
+		return specJLitText(data[pos+1])
+	case typ == jsonTypeInt16:
+		return vspec.DecS(int64(int16(specLE16(data, pos+1))))
+	case typ == jsonTypeUint16:
+		return vspec.Num(0, uint64(specLE16(data, pos+1)))
+	case typ == jsonTypeInt32 && large:
+		return vspec.DecS(int64(int32(specLE32(data, pos+1))))
+	case typ == jsonTypeUint32 && large:
+		return vspec.Num(0, uint64(specLE32(data, pos+1)))
+	}
+	return specJSONValueText(typ, data[specJOff(data, pos+1, large):], false)
+}
+
+func vc_printJSONValueEntry_requires(data []byte, pos int, large bool, result *bytes.Buffer) bool {
+	return specJEntryOK(data, pos, large) && result != nil
+}
+func vc_printJSONValueEntry_ensures_text(data []byte, pos int, large bool, result *bytes.Buffer, err error) bool {
+	return err == nil && vspec.BufIs(result, vspec.Cat(vspec.BufOld(result), specJEntryText(data, pos, large)))
+}
+
+// ---- arrays: element count, total size, one value entry per element ----
+
+// position of value entry i of an array
+func specJArrEntry(large bool, i int) int {
+	if large {
+		return 8 + 5*i
+	}
+	return 4 + 3*i
+}
+
+func specJArrOK(data []byte, large bool) bool {
+	w := specJW(large)
+	if len(data) < 2*w {
+		return false
+	}
+	n := specJOff(data, 0, large)
+	return specJOff(data, w, large) <= len(data) && specJArrEntry(large, n) <= len(data) &&
+		vspec.Forall(0, n, func(i int) bool { return specJEntryOK(data, specJArrEntry(large, i), large) })
+}
+
+// the first i elements, comma separated
+func specJArrElems(data []byte, large bool, i int) vspec.Text {
+	if i <= 0 {
+		return vspec.Empty()
+	}
+	e := specJEntryText(data, specJArrEntry(large, i-1), large)
+	if i == 1 {
+		return e
+	}
+	return vspec.Cat(specJArrElems(data, large, i-1), vspec.Lit(","), e)
+}
+
+func specJArrText(data []byte, large bool) vspec.Text {
+	return vspec.Cat(vspec.Lit("JSON_ARRAY("), specJArrElems(data, large, specJOff(data, 0, large)), vspec.Lit(")"))
+}
+
+func vc_printJSONArray_requires(data []byte, large bool, result *bytes.Buffer) bool {
+	return specJArrOK(data, large) && result != nil
+}
+
+func vc_printJSONArray_loop1_inv(i int, elementCount int, pos int, data []byte, large bool, result *bytes.Buffer) bool {
+	return i >= 0 && i <= elementCount && elementCount == specJOff(data, 0, large) && pos == specJArrEntry(large, i) &&
+		vspec.BufIs(result, vspec.Cat(vspec.BufOld(result), vspec.Lit("JSON_ARRAY("), specJArrElems(data, large, i)))
+}
+
+func vc_printJSONArray_ensures_text(data []byte, large bool, result *bytes.Buffer, err error) bool {
+	return err == nil && vspec.BufIs(result, vspec.Cat(vspec.BufOld(result), specJArrText(data, large)))
+}
+
+// ---- objects: element count, total size, one key entry (offset, 16-bit length) per member, one value entry per
+// member, then the keys and values ----
+
+func specJKeyEntry(large bool, i int) int {
+	if large {
+		return 8 + 6*i
+	}
+	return 4 + 4*i
+}
+
+func specJObjValEntry(large bool, n int, i int) int {
+	return specJKeyEntry(large, n) + specJArrEntry(large, i) - specJArrEntry(large, 0)
+}
+
+func specJKeyOff(data []byte, large bool, i int) int {
+	return specJOff(data, specJKeyEntry(large, i), large)
+}
+func specJKeyLen(data []byte, large bool, i int) int {
+	return int(specLE16(data, specJKeyEntry(large, i)+specJW(large)))
+}
+
+func specJObjOK(data []byte, large bool) bool {
+	w := specJW(large)
+	if len(data) < 2*w {
+		return false
+	}
+	n := specJOff(data, 0, large)
+	return specJOff(data, w, large) <= len(data) && specJObjValEntry(large, n, n) <= len(data) &&
+		vspec.Forall(0, n, func(i int) bool {
+			return specJKeyOff(data, large, i)+specJKeyLen(data, large, i) <= len(data) &&
+				specJEntryOK(data, specJObjValEntry(large, n, i), large)
+		})
+}
+
+func specJMemberText(data []byte, large bool, n int, i int) vspec.Text {
+	ko := specJKeyOff(data, large, i)
+	return vspec.Cat(vspec.Lit("'"), vspec.Raw(data[ko:ko+specJKeyLen(data, large, i)]), vspec.Lit("',"),
+		specJEntryText(data, specJObjValEntry(large, n, i), large))
+}
+
+// the first i members, comma separated
+func specJObjElems(data []byte, large bool, n int, i int) vspec.Text {
+	if i <= 0 {
+		return vspec.Empty()
+	}
+	if i == 1 {
+		return specJMemberText(data, large, n, 0)
+	}
+	return vspec.Cat(specJObjElems(data, large, n, i-1), vspec.Lit(","), specJMemberText(data, large, n, i-1))
+}
+
+func specJObjText(data []byte, large bool) vspec.Text {
+	n := specJOff(data, 0, large)
+	return vspec.Cat(vspec.Lit("JSON_OBJECT("), specJObjElems(data, large, n, n), vspec.Lit(")"))
+}
+
+func vc_printJSONObject_requires(data []byte, large bool, result *bytes.Buffer) bool {
+	return specJObjOK(data, large) && result != nil
+}
+
+// loop 1 collects the keys: each one a window of the document
+func vc_printJSONObject_loop1_inv(i int, elementCount int, pos int, keys [][]byte, data []byte, large bool, result *bytes.Buffer) bool {
+	return i >= 0 && i <= elementCount && elementCount == specJOff(data, 0, large) && pos == specJKeyEntry(large, i) &&
+		len(keys) == elementCount && vspec.BufIs(result, vspec.BufOld(result)) &&
+		vspec.Forall(0, i, func(j int) bool {
+			return vspec.Window(keys[j], data, specJKeyOff(data, large, j), specJKeyOff(data, large, j)+specJKeyLen(data, large, j))
+		})
+}
+
+// loop 2 prints the members
+func vc_printJSONObject_loop2_inv(i int, elementCount int, pos int, keys [][]byte, data []byte, large bool, result *bytes.Buffer) bool {
+	return i >= 0 && i <= elementCount && elementCount == specJOff(data, 0, large) && pos == specJObjValEntry(large, elementCount, i) &&
+		len(keys) == elementCount &&
+		vspec.Forall(0, elementCount, func(j int) bool {
+			return vspec.Window(keys[j], data, specJKeyOff(data, large, j), specJKeyOff(data, large, j)+specJKeyLen(data, large, j))
+		}) &&
+		vspec.BufIs(result, vspec.Cat(vspec.BufOld(result), vspec.Lit("JSON_OBJECT("), specJObjElems(data, large, elementCount, i)))
+}
+
+func vc_printJSONObject_ensures_text(data []byte, large bool, result *bytes.Buffer, err error) bool {
+	return err == nil && vspec.BufIs(result, vspec.Cat(vspec.BufOld(result), specJObjText(data, large)))
+}
+
+// ---- a whole document: type byte, then the value; the empty document is the JSON null ----
+
+func specJSONDocOK(data []byte) bool {
+	return len(data) == 0 || specJSONValueOK(data[0], data[1:])
+}
+
+func specJSONDocText(data []byte) vspec.Text {
+	if len(data) == 0 {
+		return vspec.Lit("'null'")
+	}
+	return specJSONValueText(data[0], data[1:], true)
+}
+
+func vc_printJSONData_requires(data []byte) bool { return specJSONDocOK(data) }
+func vc_printJSONData_ensures_text(data []byte, out []byte, err error) bool {
+	return err == nil && vspec.SameText(out, specJSONDocText(data))
+}
+
+// the rendered text is memory of its own (never the document's bytes) and never nil (a JSON value is not SQL NULL)
+func vc_printJSONData_ensures_owner(data []byte, out []byte, err error) bool {
+	return out != nil && vspec.Fresh(out, data)
+}
